@@ -162,3 +162,31 @@ func isMaxSize(err error) bool { return errors.Is(err, berrors.ErrMaxSizeReached
 
 var _ = fmt.Sprintf
 var _ = bolt.DefaultFillPercent
+
+// failureOracle is the shared reaction to a commit that returned an error inside a generated history:
+// only an injected fault or the size limit may fail a commit; after a failed final sync the newest version
+// is re-determined from the file; then dump, readers and accounting are checked.
+func failureOracle(e *drv.Env, err error) *drv.Violation {
+	if e.Failed == nil || !e.FailedInTx {
+		if !isMaxSize(err) {
+			return drv.Violf("commit failed with %v without an injected fault", err)
+		}
+	} else if e.FailedFinalSync {
+		_, a, v := decodeFile(e)
+		if v != nil {
+			return v
+		}
+		if int(a.Meta.Txid) == e.FailedTxid {
+			e.AdoptFailed()
+		}
+	}
+	e.FailAt = 0
+	if v := e.CheckCommitted("after a failed commit"); v != nil {
+		return v
+	}
+	if v := e.CompareReaders("after a failed commit"); v != nil {
+		return v
+	}
+	_, v := checkAccounting(e, "after a failed commit")
+	return v
+}
